@@ -38,6 +38,7 @@ CONSTANTS N,           \* number of qubits
 VARIABLES gates,   \* the record `_gates` (accepted gates with their current parameters)
           reg,     \* reference state  Run(N, accepted gates with the parameters set so far)
           tn,      \* the gate list the network `_psi` encodes
+          tnv,     \* the state that network denotes, Run(N, tn)
           store,   \* memo: key -> [ver, tn, gs]  (snapshot the entry was computed from)
           sng,     \* _sample_n_gates
           ver,     \* history version: bumped by every change of gates / parameters
@@ -49,8 +50,8 @@ VARIABLES gates,   \* the record `_gates` (accepted gates with their current par
           fresh,   \* the last query read no memo entry of another version
           depth, fam, act, hist
 
-vars == <<gates, reg, tn, store, sng, ver, perm, phys, other, rej, qok, fresh, depth, fam, act, hist>>
-view == <<gates, reg, tn, store, sng, ver, perm, phys, other, rej, qok, fresh, depth>>
+vars == <<gates, reg, tn, tnv, store, sng, ver, perm, phys, other, rej, qok, fresh, depth, fam, act, hist>>
+view == <<gates, reg, tn, tnv, store, sng, ver, perm, phys, other, rej, qok, fresh, depth>>
 
 Exact == Cls = "exact"
 PermC == Cls \in {"perm-ss", "perm-auto"}
@@ -83,6 +84,9 @@ Cone(gs, i, cone, acc) ==
 \* the network restricted to the cone: gate tensors outside the cone are dropped from ket and bra;
 \* an uncontrolled SWAP / IDEN has no tensor (it is a relabelling of the wires), so it is always in effect
 Tensorless(g) == g.c = <<>> /\ g.name \in {"SWAP", "IDEN"}
+ConeAll(e, where) ==
+  LET keepi == Cone(e.gs, Len(e.gs), where, {}) IN
+  \A i \in 1..Len(e.tn) : i \in keepi \/ Tensorless(e.tn[i]) \/ e.tn[i].name = "IDEN"
 ConeGates(e, where) ==
   LET keepi == Cone(e.gs, Len(e.gs), where, {}) IN
   TLCEval([i \in 1..Len(e.tn) |-> IF i \in keepi \/ Tensorless(e.tn[i]) THEN Plain(e.tn[i])
@@ -114,15 +118,16 @@ QKey(q) ==
     [] q.kind = "marg"   -> IF Region(q) = 0..N - 1 THEN <<"psi-marg", 0>> ELSE <<"rdm-marg", Mask(Region(q))>>
     [] q.kind = "sample" -> <<"cond", 0>>
     [] q.kind = "uni"    -> <<"none", 0>>
-\* the value the implementation returns from the snapshot e = [tn, gs]
+\* the value the implementation returns from the snapshot e = [ver, sv (= Run(N, tn)), tn, gs]
+ConeState(e, where) == IF ConeAll(e, where) THEN e.sv ELSE Run(N, ConeGates(e, where))
 QImpl(q, e) ==
-  CASE q.kind = "amp"    -> Amp(Run(N, e.tn), q.b)
-    [] q.kind = "dense"  -> Dense(Run(N, e.tn), N, q.rev)
+  CASE q.kind = "amp"    -> Amp(e.sv, q.b)
+    [] q.kind = "dense"  -> Dense(e.sv, N, q.rev)
     [] q.kind = "uni"    -> Uni(N, e.tn)
-    [] q.kind = "ptr"    -> RDM(Run(N, ConeGates(e, Region(q))), q.keep, N)
-    [] q.kind = "expec"  -> Expec(Run(N, ConeGates(e, Region(q))), OpM(q.op), q.where, N)
-    [] q.kind = "marg"   -> Marginal(Run(N, IF Region(q) = 0..N - 1 THEN e.tn ELSE ConeGates(e, Region(q))), q.where, q.fix, N)
-    [] q.kind = "sample" -> Support(Run(N, e.tn))
+    [] q.kind = "ptr"    -> RDM(ConeState(e, Region(q)), q.keep, N)
+    [] q.kind = "expec"  -> Expec(ConeState(e, Region(q)), OpM(q.op), q.where, N)
+    [] q.kind = "marg"   -> Marginal(IF Region(q) = 0..N - 1 THEN e.sv ELSE ConeState(e, Region(q)), q.where, q.fix, N)
+    [] q.kind = "sample" -> Support(e.sv)
 
 (* --------------------- CircuitPermMPS bookkeeping -------------------------- *)
 IndexOf(s, x) == (CHOOSE i \in DOMAIN s : s[i] = x) - 1
@@ -141,7 +146,7 @@ Logical(v, pm) ==
   TLCEval([xx \in 1..(2 ^ N) |-> v[SubIdx(xx - 1, pm, N, 1) + 1]])
 
 (* ------------------------------ actions ------------------------------------ *)
-Me == [gates |-> gates, reg |-> reg, tn |-> tn, store |-> store, sng |-> sng, ver |-> ver, perm |-> perm, phys |-> phys]
+Me == [gates |-> gates, reg |-> reg, tn |-> tn, tnv |-> tnv, store |-> store, sng |-> sng, ver |-> ver, perm |-> perm, phys |-> phys]
 Bump(a) == /\ depth < MaxDepth /\ depth' = depth + 1 /\ act' = a /\ fam' = "none"
            /\ hist' = IF Record THEN Append(hist, a) ELSE hist
 
@@ -151,9 +156,11 @@ ParamCtl(g) == g.par /\ g.c # <<>>            \* PArray has no reshape: Attribut
 ApplyExact(g) ==
   /\ Exact
   /\ IF ParamCtl(g)
-     THEN /\ UNCHANGED <<gates, reg, tn, ver>> /\ rej' = TRUE
+     THEN /\ UNCHANGED <<gates, reg, tn, tnv, ver>> /\ rej' = TRUE
      ELSE /\ gates' = Append(gates, g) /\ tn' = Append(tn, g) /\ ver' = ver + 1 /\ rej' = FALSE
-          /\ reg' = IF Record THEN reg ELSE StepGate(reg, g, N)
+          /\ LET r1 == StepGate(reg, g, N) IN
+             /\ reg' = IF Record THEN reg ELSE r1
+             /\ tnv' = IF Record THEN tnv ELSE IF tnv = reg THEN r1 ELSE StepGate(tnv, g, N)
   /\ UNCHANGED <<store, sng, perm, phys, other, qok, fresh>>
 
 \* ---- CircuitPermMPS._apply_gate
@@ -192,7 +199,7 @@ ApplyPerm(g) ==
         IN  accept(Apply(MoveSite(phys, j0, i0 + 1), U, fw, <<>>, N))
      ELSE IF Cls = "perm-ss" THEN raise(perm1)         \* 3 sites with swap+split: ValueError, nothing touched
      ELSE accept(Apply(phys, U, physq, <<>>, N))       \* 'nonlocal' sub-MPO, no site movement
-  /\ UNCHANGED <<store, sng, other, qok, fresh>>
+  /\ UNCHANGED <<store, sng, other, qok, fresh, tnv>>
 
 ApplyGate(g) == (ApplyExact(g) \/ ApplyPerm(g)) /\ Bump([op |-> "gate", g |-> g])
 
@@ -201,7 +208,9 @@ SetP(gs, i, p) == [gs EXCEPT ![i].p = p]
 SetParams(i, p) ==
   /\ Exact /\ i \in DOMAIN gates /\ gates[i].par /\ p \in NewParams[gates[i].name] /\ p # gates[i].p
   /\ gates' = SetP(gates, i, p) /\ tn' = SetP(tn, i, p)
-  /\ reg' = IF Record THEN reg ELSE Run(N, SetP(gates, i, p))
+  /\ LET r1 == Run(N, SetP(gates, i, p)) IN
+     /\ reg' = IF Record THEN reg ELSE r1
+     /\ tnv' = IF Record THEN tnv ELSE IF tn = gates THEN r1 ELSE Run(N, SetP(tn, i, p))
   /\ store' = EmptyStore /\ sng' = Len(gates) /\ ver' = ver + 1 /\ rej' = FALSE     \* clear_storage()
   /\ UNCHANGED <<perm, phys, other, qok, fresh>>
   /\ Bump([op |-> "setp", i |-> i - 1, p |-> p])
@@ -213,15 +222,18 @@ UpdateParams ==
   /\ Exact /\ \E i \in DOMAIN gates : gates[i].par
   /\ LET bad == {i \in DOMAIN gates : Tensorless(gates[i])}          \* tn[GATE_i] raises KeyError
          stop == IF bad = {} THEN Len(gates) + 1 ELSE CHOOSE i \in bad : \A j \in bad : i <= j
-         upd(gs) == [i \in DOMAIN gs |-> IF i < stop THEN [gs[i] EXCEPT !.p = NextP(gates[i])] ELSE gs[i]]
+         upd(gs) == TLCEval([i \in DOMAIN gs |-> IF i < stop THEN [gs[i] EXCEPT !.p = NextP(gates[i])] ELSE gs[i]])
      IN
      /\ (bad # {} => "upd-special" \in Deviations)
      /\ IF bad = {}
         THEN /\ gates' = upd(gates) /\ tn' = upd(tn) /\ rej' = FALSE
-             /\ reg' = IF Record THEN reg ELSE Run(N, upd(gates))
+             /\ LET r1 == Run(N, upd(gates)) IN
+                /\ reg' = IF Record THEN reg ELSE r1
+                /\ tnv' = IF Record THEN tnv ELSE IF tn = gates THEN r1 ELSE Run(N, upd(tn))
              /\ store' = EmptyStore /\ sng' = Len(gates) /\ ver' = ver + 1
         ELSE \* KeyError in the middle of the loop: earlier gates are already updated, clear_storage() is not reached
              /\ gates' = upd(gates) /\ tn' = upd(tn) /\ rej' = TRUE
+             /\ tnv' = IF Record THEN tnv ELSE Run(N, upd(tn))
              /\ UNCHANGED <<reg, store, sng>> /\ ver' = ver + 1
   /\ UNCHANGED <<perm, phys, other, qok, fresh>>
   /\ Bump([op |-> "updp"])
@@ -230,12 +242,12 @@ UpdateParams ==
 Copy ==
   /\ other = <<>> /\ Len(gates) > 0
   /\ other' = <<Me>> /\ rej' = FALSE
-  /\ UNCHANGED <<gates, reg, tn, store, sng, ver, perm, phys, qok, fresh>>
+  /\ UNCHANGED <<gates, reg, tn, tnv, store, sng, ver, perm, phys, qok, fresh>>
   /\ Bump([op |-> "copy"])
 Switch ==
   /\ other # <<>>
   /\ LET oth == other[1] IN
-     /\ gates' = oth.gates /\ reg' = oth.reg /\ tn' = oth.tn /\ store' = oth.store /\ sng' = oth.sng /\ ver' = oth.ver
+     /\ gates' = oth.gates /\ reg' = oth.reg /\ tn' = oth.tn /\ tnv' = oth.tnv /\ store' = oth.store /\ sng' = oth.sng /\ ver' = oth.ver
      /\ perm' = oth.perm /\ phys' = oth.phys
   /\ other' = <<Me>> /\ rej' = FALSE
   /\ UNCHANGED <<qok, fresh>>
@@ -248,25 +260,31 @@ QueryExact(q) ==
          store0 == IF init THEN EmptyStore ELSE store
          key    == QKey(q)
          cached == key[1] # "none" /\ key \in DOMAIN store0
-         e      == IF cached THEN store0[key] ELSE [ver |-> ver, tn |-> tn, gs |-> gates]
+         e      == IF cached THEN store0[key] ELSE [ver |-> ver, sv |-> tnv, tn |-> tn, gs |-> gates]
      IN
      /\ sng' = IF key[1] = "none" THEN sng ELSE Len(gates)
      /\ store' = IF key[1] = "none" THEN store ELSE IF cached THEN store0 ELSE (key :> e) @@ store0
      /\ fresh' = (e.ver = ver)
-     /\ qok' = IF Record THEN TRUE ELSE QImpl(q, e) = QRef(q, reg, gates)
-  /\ UNCHANGED <<gates, reg, tn, ver, perm, phys, other>> /\ rej' = FALSE
+     \* (when the snapshot is the current history and no gate is dropped by the cone the two sides are the
+     \*  same expression: not evaluated twice)
+     /\ qok' = IF Record THEN TRUE
+               ELSE IF q.kind = "uni" THEN (e.tn = gates \/ Uni(N, e.tn) = Uni(N, gates))
+               ELSE IF e.sv = reg /\ (q.kind \in {"amp", "dense", "sample"} \/ Region(q) = 0..N - 1 \/ ConeAll(e, Region(q))) THEN TRUE
+               ELSE QImpl(q, e) = QRef(q, reg, gates)
+  /\ UNCHANGED <<gates, reg, tn, tnv, ver, perm, phys, other>> /\ rej' = FALSE
 QueryPerm(q) ==
   /\ PermC /\ q.kind \in {"dense", "expec", "amp"}
   /\ qok' = IF Record THEN TRUE
             ELSE IF q.kind = "dense" THEN Dense(Logical(phys, perm), N, q.rev) = QRef(q, reg, gates)
             ELSE IF q.kind = "amp" THEN Amp(Logical(phys, perm), q.b) = QRef(q, reg, gates)
             ELSE Expec(phys, OpM(q.op), [i \in 1..Len(q.where) |-> IndexOf(perm, q.where[i])], N) = QRef(q, reg, gates)
-  /\ UNCHANGED <<gates, reg, tn, ver, perm, phys, other, store, sng, fresh>> /\ rej' = FALSE
+  /\ UNCHANGED <<gates, reg, tn, tnv, ver, perm, phys, other, store, sng, fresh>> /\ rej' = FALSE
 Query(q) == (QueryExact(q) \/ QueryPerm(q)) /\ Bump([op |-> "query", q |-> q])
 
 Init ==
   /\ gates = <<>> /\ tn = <<>> /\ store = EmptyStore /\ sng = 0 - 1 /\ ver = 0
   /\ reg = IF Record THEN <<>> ELSE Basis(N, 0)
+  /\ tnv = IF Record \/ ~Exact THEN <<>> ELSE Basis(N, 0)
   /\ phys = IF Record \/ Exact THEN <<>> ELSE Basis(N, 0)
   /\ perm = [i \in 1..N |-> i - 1]
   /\ other = <<>> /\ rej = FALSE /\ qok = TRUE /\ fresh = TRUE
@@ -287,26 +305,25 @@ QueryA        == (fam \in {"none", "query"}) /\ \E q \in Queries : Query(q)
 Step == ApplyGateA \/ SetParamsA \/ UpdateParamsA \/ CopyA \/ SwitchA \/ QueryA
 \* behaviour generation draws the kind of the next action first, so that the kinds are balanced
 ChooseFam == /\ Record /\ fam = "none" /\ depth < MaxDepth /\ \E f \in Fams : fam' = f
-             /\ UNCHANGED <<gates, reg, tn, store, sng, ver, perm, phys, other, rej, qok, fresh, depth, act, hist>>
+             /\ UNCHANGED <<gates, reg, tn, tnv, store, sng, ver, perm, phys, other, rej, qok, fresh, depth, act, hist>>
 GiveUp == /\ Record /\ fam # "none" /\ ~ENABLED Step /\ fam' = "none"
-          /\ UNCHANGED <<gates, reg, tn, store, sng, ver, perm, phys, other, rej, qok, fresh, depth, act, hist>>
+          /\ UNCHANGED <<gates, reg, tn, tnv, store, sng, ver, perm, phys, other, rej, qok, fresh, depth, act, hist>>
 Next == IF Record THEN (ChooseFam \/ (fam # "none" /\ Step) \/ GiveUp) ELSE Step
 Spec == Init /\ [][Next]_vars
 
 EmitJson == (Record /\ depth = MaxDepth) => PrintT(<<"QVJSON", ToJson(hist)>>)
 
 (* ------------------------------ properties --------------------------------- *)
-\* the vocabulary itself
-AlphabetValid  == \A g \in Gates : ValidGate(Plain(g), N)
-GatesUnitary   == \A g \in Gates : IsUnitary(GateMat(g.name, g.p))
+\* the alphabet is well formed (unitarity of the whole vocabulary is checked by C07_Vocab)
+ASSUME AlphabetValid == \A g \in Gates : ValidGate(Plain(g), N)
 \* property level
 RegIsRun       == Record \/ reg = Run(N, gates)                     \* reg is U_n ... U_1 |0> of the accepted gates
 NormOne        == Record \/ Norm2(reg) = One
 QueriesAgree   == qok                                               \* every query equals its definition on reg
 NoStaleRead    == fresh                                             \* ... and never reads another version's memo
-RejectClean    == Record \/ (rej => /\ (Exact => Run(N, tn) = reg)
+RejectClean    == Record \/ (rej => /\ (Exact => tnv = reg)
                                     /\ (PermC => Logical(phys, perm) = reg))
-RecordInStep   == Exact => tn = gates                              \* `_gates` describes the network
+RecordInStep   == Record \/ (Exact => tn = gates /\ tnv = (IF tn = gates THEN reg ELSE Run(N, tn)))   \* `_gates` describes the network
 PermIsPerm     == SetOfSeq(perm) = 0..N - 1
 PermSound      == Record \/ (PermC => Logical(phys, perm) = reg)
 \* every memo entry that a query could still be served from is current
